@@ -576,21 +576,6 @@ def check_kind(ctx, name, kind, thunk, values, probes):
                 detail = "values of %r: %s vs %s" % (bad, short([ma[k] for k in bad], 150),
                                                      short([mb[k] for k in bad], 150))
         if complaint is None:
-            for attr in FLAG_ATTRS:
-                ctx.ev()
-                fa, fb = outcome(getattr, ct, attr), outcome(getattr, rt, attr)
-                if not out_equiv(fa, fb):
-                    complaint = "flags-differ"
-                    detail = "%s: %s vs %s" % (attr, short(fa, 100), short(fb, 100))
-                    break
-        if complaint is None:
-            ctx.ev()
-            if not compare_state_ints(ct, rt):
-                complaint = "flags-differ"
-                detail = "integer fields of __getstate__(): %r vs %r" % (
-                    [x for x in ct.__getstate__() if type(x) is int],
-                    [x for x in rt.__getstate__() if type(x) is int])
-        if complaint is None:
             inst, k_rt = install_script(rt, probes, mode)
             ref_inst, k_ref = install_script(ct, probes, "orig2")
             _SELF_PAIR[0], _SELF_PAIR[1] = k_ref, k_rt
@@ -605,6 +590,21 @@ def check_kind(ctx, name, kind, thunk, values, probes):
             _SELF_PAIR[0] = _SELF_PAIR[1] = None
             if complaint is None and len(inst) != len(ref_inst):
                 complaint, detail = "install-differs", "script lengths %d vs %d" % (len(ref_inst), len(inst))
+        if complaint is None:
+            for attr in FLAG_ATTRS:
+                ctx.ev()
+                fa, fb = outcome(getattr, ct, attr), outcome(getattr, rt, attr)
+                if not out_equiv(fa, fb):
+                    complaint = "flags-differ"
+                    detail = "%s: %s vs %s" % (attr, short(fa, 100), short(fb, 100))
+                    break
+        if complaint is None:
+            ctx.ev()
+            if not compare_state_ints(ct, rt):
+                complaint = "flags-differ"
+                detail = "integer fields of __getstate__(): %r vs %r" % (
+                    [x for x in ct.__getstate__() if type(x) is int],
+                    [x for x in rt.__getstate__() if type(x) is int])
         for c in classes:
             ctx.sig("def", c)
         ctx.sig("def", kind, mclass, complaint)
